@@ -12,6 +12,7 @@ from vfslib import VFS
 SKEL = @@SKEL@@            # (name, [sub-skeletons], [file names]); shard constant
 MODE = @@MODE@@
 FIXP = @@FIXP@@            # True: every skeleton entry is present (presence not symbolic in this shard)
+FIXEXCL = @@FIXEXCL@@      # True: the matcher excludes nothing (verdicts not symbolic in this shard)
 FIXREV = @@FIXREV@@        # True: listing order as written (not symbolic in this shard)
 FIX = @@FIX@@              # argument name -> fixed value (absent: symbolic)
 SUBTRACT = @@SUBTRACT@@    # ids of known findings whose input region is subtracted from this obligation (normally empty)
@@ -148,7 +149,7 @@ def check(present: List[bool], excl: List[bool], rev: List[bool], excl_root: boo
           has_prefix: bool, sep2: bool, out_i: int, ext_t: bool, ext_m: bool, which: int, rev2: List[bool], cwd2: bool) -> bool:
     """
     pre: _wf(present, excl, rev, excl_root, auto_ex)
-    pre: (not FIXP or all(present)) and (not FIXREV or not any(rev))
+    pre: (not FIXP or all(present)) and (not FIXREV or not any(rev)) and (not FIXEXCL or not any(excl))
     pre: _fixed(dict(recursive=recursive, auto_ex=auto_ex, has_prefix=has_prefix, sep2=sep2, out_i=out_i, ext_t=ext_t, ext_m=ext_m, excl_root=excl_root))
     pre: 0 <= out_i < len(OUTS) and 0 <= which < max(1, len(FILES))
     pre: (len(rev2) == ND) if MODE == "rel" else (len(rev2) == 0 and not cwd2)
